@@ -303,6 +303,21 @@ def semver_equality(ctx, rule):
                 if has_eq and sum(1 for _, x in prov.slice(f, c.args[0]).calls if x in keys) >= 2:
                     eq = True
     ok = len(keys) >= 2 and both >= {1, 2} and eq
+    # identical names are compatible whether or not they have a semver track (pre-releases, 0.0.x): the two parameters are
+    # compared with each other directly, outside any version-shape test
+    cfgf = CFG(f)
+    direct = []
+    for t in f.calls():
+        if (t.declared or "").endswith(("PartialEq::eq", "PartialEq::ne")) and len(t.args) >= 2:
+            pa = {i for fid, i in narrow(prov, f, t.args[0]).params if fid == f.id}
+            pb = {i for fid, i in narrow(prov, f, t.args[1]).params if fid == f.id}
+            if pa | pb >= {1, 2} and not any(x in keys for _, x in prov.slice(f, t.args[0]).calls + prov.slice(f, t.args[1]).calls):
+                direct.append(t)
+    unconditional = [t for t in direct if not any(b.term.k == "switch" and cfgf.dominates(b.idx, t.bb) and b.idx != t.bb for b in f.blocks)]
+    ctx.ob(rule, "identical-names-compatible", bool(unconditional),
+           "a name is compatible with itself: `a == b` is tested before anything else" if unconditional else
+           "are_semver_compatible has no unconditional `a == b` test%s: a versioned name without a semver track (pre-release, 0.0.x) is not compatible with itself, so two contributors "
+           "using the same such interface cannot be merged" % (" (the direct comparison is only reached under a version-shape test)" if direct else ""), site=f.span)
     ctx.ob(rule, "track-key-equality|are_semver_compatible", ok,
            "compatibility = equality of the track keys of both names" if ok else
            "are_semver_compatible does not compare the track keys of *both* names by equality (keys computed for params %s, equality=%s)" % (sorted(both), eq),
